@@ -131,7 +131,8 @@ func newAlphabet() *alphabet {
 	for _, r := range a.fineReps {
 		a.symbols = append(a.symbols, string([]byte{r}))
 	}
-	a.symbols = append(a.symbols, "é", "€", "😀", "\u2028", "\u2029", "\uFFFD", "\xe2\x82", "\xff")
+	// (U+FEFF and U+FF01 start with the byte 0xEF, which the parsers take for the start of a byte-order mark at the start of a document)
+	a.symbols = append(a.symbols, "é", "€", "😀", "\u2028", "\u2029", "\uFFFD", "\xe2\x82", "\xff", "\uFEFF", "\uFF01")
 	return a
 }
 
@@ -159,6 +160,10 @@ func (a *alphabet) unitName(u string) string {
 		return "u2028"
 	case "\uFFFD":
 		return "ufffd"
+	case "\uFEFF":
+		return "ufeff"
+	case "\uFF01":
+		return "0xEF-rune"
 	}
 	return fmt.Sprintf("%dbyte-rune", len(u))
 }
